@@ -34,6 +34,12 @@ def _replay_unescape(world, c, model):
 
 for variant, pat in (('esc', P + 'RE_CSS_ESC'), ('stresc', P + 'RE_CSS_STR_ESC')):
     contract(P + 'css_unescape.replace@' + variant, params=dict(m=MATCH), match_params={'m': pat}, returns=STR, replay_hook=_replay_unescape,
-             ensures=['len(result) <= 1'], properties=['C06', 'C09', 'C10'])
+             ensures=['len(result) <= 1',
+                      # css-syntax "consume an escaped code point": hex digits name a code point (zero and anything beyond U+10FFFF
+                      # become U+FFFD), any other escaped character stands for itself, a backslash at the end for U+FFFD, and (strings) an
+                      # escaped newline for nothing
+                      "result == (('\\ufffd' if (int(m.group(1)[1:], 16) == 0 or int(m.group(1)[1:], 16) > 0x10FFFF) else chr(int(m.group(1)[1:], 16))) "
+                      "if m.group(1) else (m.group(2)[1:] if m.group(2) else ('\\ufffd' if m.group(3) else '')))"],
+             properties=['C06', 'C09', 'C10'])
 contract(P + 'css_unescape', params=dict(content=STR, string=BOOL), returns=STR,
-         ensures=['len(result) >= 0'], defines=['result == unesc(content, string)'], properties=['C06', 'C09', 'C10', 'C19'])
+         ensures=['result == unesc(content, string)'], properties=['C06', 'C09', 'C10', 'C19'])
